@@ -60,6 +60,7 @@ CLAUSES = (
     "flags-respected",
     "end-before-start-rejected",
     "timestamps-tz-utc",
+    "every-traversal-is-complete",
 )
 
 START_TODS = ((0, 0), (14, 30))
@@ -181,6 +182,21 @@ def check_case(case, bdays_cache=None):
         results.append(("dates-exactly-business-days", False, "%s: %s" % (type(exc).__name__, exc),
                         "%d business days" % len(bdays)))
         return results, bool(bdays), None
+
+    # --- the clock is a function of (start, end, flags): a second traversal, and one begun after an abandoned traversal,
+    #     yield the same events as the first (ranges of at most 12 business days, to keep the thorough tier affordable)
+    if len(bdays) <= 12:
+        try:
+            it = iter(engine)
+            for _ in range(min(2, len(raw))):
+                next(it)
+            del it
+            again = [(ev.ts, ev.event_type) for ev in engine]
+            ok2 = again == raw
+            obs2 = "second traversal: %d events%s" % (len(again), "" if ok2 or not again else ", first " + repr(again[0]))
+        except Exception as exc:
+            ok2, obs2 = False, "%s: %s" % (type(exc).__name__, exc)
+        results.append(("every-traversal-is-complete", ok2, obs2, "the %d events of the first traversal" % len(raw)))
 
     # --- observation: group consecutive events by calendar date
     groups = []            # [(date, [types], [fields])]
